@@ -42,65 +42,114 @@ ASSUMED = [
 
 FILES = ["fastparquet/writer.py", "fastparquet/api.py", "fastparquet/util.py", "fastparquet/schema.py", "fastparquet/core.py", "fastparquet/dataframe.py"]
 
-PY, UNK, NP, ARR = "py", "unknown", "numpy-scalar", "array"
+PY, PARAM, UNK, NP, ARR = "py", "param", "unknown", "numpy-scalar", "array"
 BAD = (NP, ARR)
+ORDER = {PY: 0, PARAM: 1, UNK: 2, ARR: 3, NP: 4}
+E = frozenset()
+
+
+def K(tag, deps=E):
+    return (tag, frozenset(deps))
+
+
+KPY, KUNK, KNP, KARR = K(PY), K(UNK), K(NP), K(ARR)
 
 
 def join(*ks):
     ks = [k for k in ks if k is not None]
     if not ks:
-        return PY
-    if NP in ks:
-        return NP
-    if ARR in ks:
-        return ARR
-    if UNK in ks:
-        return UNK
-    return PY
+        return KPY
+    tag = max((k[0] for k in ks), key=lambda t: ORDER[t])
+    deps = frozenset().union(*[k[1] for k in ks])
+    return (tag, deps)
 
 
-PY_FUNCS = {"int", "len", "bool", "float", "str", "bytes", "ord", "repr", "isinstance", "hasattr", "callable", "hash", "id", "chr", "format", "bytearray"}
+def retag(k, tag):
+    return (tag, k[1])
+
+
+PY_FUNCS = {"int", "len", "bool", "float", "str", "bytes", "ord", "repr", "isinstance", "hasattr", "callable", "hash", "id", "chr", "format", "bytearray", "type", "range"}
 PY_METHODS = {"tell", "encode", "decode", "tobytes", "to_bytes", "join", "format", "hex", "lower", "upper", "strip", "lstrip", "rstrip", "dumps", "item",
-              "tolist", "read", "index", "startswith", "endswith", "replace", "split", "rsplit", "isoformat", "total_seconds", "bit_length", "keys_", "write",
-              "seek", "find", "rfind", "as_py", "to_pydatetime", "title", "zfill", "isdigit"}
-NP_METHODS = {"sum", "count", "max", "min", "mean", "nunique", "prod", "any", "all", "argmax", "argmin", "std", "var", "median", "dot", "cumsum", "ptp"}
-ARR_METHODS = {"astype", "view", "to_numpy", "ravel", "reshape", "unique", "isna", "isnull", "notnull", "notna", "dropna", "fillna", "map", "apply", "copy_",
-               "searchsorted", "nonzero", "cumsum", "diff", "take", "repeat", "flatten", "squeeze", "where"}
-ARR_ATTRS = {"values", "codes", "cat", "array", "_values", "categories", "str", "dt", "iloc", "loc", "T", "real", "imag", "flat", "_mask", "_data"}
-PY_ATTRS = {"nbytes", "size", "itemsize", "ndim", "shape", "name", "names", "kind", "char", "tz", "zone", "unit"}
+              "tolist", "read", "index", "startswith", "endswith", "replace", "split", "rsplit", "isoformat", "total_seconds", "bit_length", "write",
+              "seek", "find", "rfind", "as_py", "to_pydatetime", "title", "zfill", "isdigit", "as_posix"}
+NP_METHODS = {"sum", "count", "max", "min", "mean", "nunique", "prod", "any", "all", "argmax", "argmin", "std", "var", "median", "dot", "ptp"}
+ARR_METHODS = {"astype", "view", "to_numpy", "ravel", "reshape", "unique", "isna", "isnull", "notnull", "notna", "dropna", "fillna", "map", "apply",
+               "searchsorted", "nonzero", "cumsum", "diff", "take", "repeat", "flatten", "squeeze", "where", "as_ordered", "value_counts", "sort_values"}
+ARR_ATTRS = {"values", "codes", "cat", "array", "_values", "categories", "dt", "iloc", "loc", "T", "real", "imag", "flat", "_mask", "_data"}
+PY_ATTRS = {"nbytes", "size", "itemsize", "ndim", "shape"}
 NP_SCALAR_CTORS = {"int8", "int16", "int32", "int64", "uint8", "uint16", "uint32", "uint64", "float32", "float64", "bool_", "intp", "datetime64", "timedelta64",
                    "float16", "longlong", "intc", "uint", "int_", "float_"}
 THRIFT_MODULES = ("parquet_thrift",)
+SAME_KIND_FUNCS = {"sorted", "list", "tuple", "reversed", "set", "frozenset", "abs", "round", "divmod", "pow", "copy", "deepcopy"}
+
+
+class Program:
+    """all the files: function table by simple name (for summaries and for discharging `requires` at internal callers)"""
+
+    def __init__(self, fields, children):
+        self.fields, self.children = fields, children
+        self.mods = {}
+        self.funcs = {}             # simple name -> [(rel, qualname, FunctionDef)]
+        self.sites, self.calls = [], []
+        self._summ, self._busy = {}, set()
+
+    def add(self, rel, tree):
+        self.mods[rel] = tree
+        for st in tree.body:
+            if isinstance(st, (ast.FunctionDef, ast.AsyncFunctionDef)):
+                self.funcs.setdefault(st.name, []).append((rel, st.name, st))
+            elif isinstance(st, ast.ClassDef):
+                for s in st.body:
+                    if isinstance(s, (ast.FunctionDef, ast.AsyncFunctionDef)):
+                        self.funcs.setdefault(s.name, []).append((rel, st.name + "." + s.name, s))
+
+    def summary(self, name):
+        """return kind of the (unique) function of that simple name, parameters as PARAM{p}; None if unknown / ambiguous / recursive"""
+        if name in self._summ:
+            return self._summ[name]
+        defs = self.funcs.get(name, [])
+        if len(defs) != 1 or name in self._busy:
+            return None
+        rel, qual, fdef = defs[0]
+        if any(isinstance(n, (ast.Yield, ast.YieldFrom)) for n in ast.walk(fdef)):
+            self._summ[name] = None
+            return None
+        self._busy.add(name)
+        try:
+            an = Analyzer(self, rel, record=False)
+            an.function(fdef, qual, {})
+            k = join(*an.returns) if an.returns else KPY
+        finally:
+            self._busy.discard(name)
+        self._summ[name] = (k, [a.arg for a in fdef.args.args], fdef)
+        return self._summ[name]
+
+    def run(self):
+        for rel, tree in self.mods.items():
+            an = Analyzer(self, rel, record=True)
+            an.module(tree)
+
+
+def bind_args(fdef, n_pos, kw_names):
+    """positional index / keyword name -> parameter name"""
+    params = [a.arg for a in fdef.args.args]
+    return params
 
 
 class Analyzer:
-    def __init__(self, rel, tree, field_names, child_names):
-        self.rel, self.tree = rel, tree
-        self.fields, self.children = field_names, child_names
-        self.sites = []
+    def __init__(self, prog, rel, record=True):
+        self.prog, self.rel, self.record = prog, rel, record
+        self.fields, self.children = prog.fields, prog.children
+        self.returns = []
         self.consts = {}
-        self.summaries = {}
-        for st in tree.body:
+        tree = prog.mods.get(rel)
+        for st in (tree.body if tree is not None else []):
             if isinstance(st, ast.Assign) and len(st.targets) == 1 and isinstance(st.targets[0], ast.Name):
                 self.consts[st.targets[0].id] = st.value
-            if isinstance(st, ast.FunctionDef):
-                self.summaries[st.name] = self.summary(st)
 
-    # a module-level function is an identity helper when every return statement returns one and the same parameter, a py helper when every
-    # return expression is py in an environment where the parameters are unknown
-    def summary(self, fn):
-        params = [a.arg for a in fn.args.args]
-        rets = [n for n in ast.walk(fn) if isinstance(n, ast.Return)]
-        inner = [n for n in ast.walk(fn) if isinstance(n, (ast.FunctionDef, ast.Lambda)) and n is not fn]
-        if not rets or inner or any(isinstance(n, (ast.Yield, ast.YieldFrom)) for n in ast.walk(fn)):
-            return None
-        assigned = {t.id for n in ast.walk(fn) if isinstance(n, (ast.Assign, ast.AugAssign, ast.AnnAssign, ast.For))
-                    for t in ast.walk(n.targets[0] if isinstance(n, ast.Assign) else n.target) if isinstance(t, ast.Name)}
-        if all(isinstance(r.value, ast.Name) and r.value.id in params and r.value.id not in assigned for r in rets):
-            idx = {params.index(r.value.id) for r in rets}
-            if len(idx) == 1:
-                return ("identity", idx.pop())
-        return None
+    def site(self, line, fn, struct, vals):
+        if self.record:
+            self.prog.sites.append((self.rel, line, fn, struct, vals))
 
     # ---- expressions ----
     def ev(self, e, env, fn):
@@ -109,34 +158,57 @@ class Analyzer:
             for c in ast.iter_child_nodes(e):
                 if isinstance(c, ast.expr):
                     self.ev(c, env, fn)
-            return UNK
+            return KUNK
         return m(e, env, fn)
 
     def e_Constant(self, e, env, fn):
-        return PY
+        return KPY
 
     def e_JoinedStr(self, e, env, fn):
         for v in e.values:
             self.ev(v, env, fn)
-        return PY
+        return KPY
 
     def e_FormattedValue(self, e, env, fn):
         self.ev(e.value, env, fn)
-        return PY
+        return KPY
+
+    def const_kind(self, v, depth=0):
+        """kind of a module-level constant expression (literals, displays of literals, thrift enum members)"""
+        if isinstance(v, (ast.Constant, ast.JoinedStr)):
+            return KPY
+        if depth > 4:
+            return KUNK
+        if isinstance(v, (ast.Tuple, ast.List, ast.Set)):
+            return join(KPY, *[self.const_kind(x, depth + 1) for x in v.elts])
+        if isinstance(v, ast.Dict):
+            return join(KPY, *[self.const_kind(x, depth + 1) for x in v.values])
+        if isinstance(v, ast.IfExp):
+            return join(self.const_kind(v.body, depth + 1), self.const_kind(v.orelse, depth + 1))
+        if isinstance(v, ast.Attribute) and isinstance(v.value, ast.Attribute) and isinstance(v.value.value, ast.Name) and v.value.value.id in THRIFT_MODULES:
+            return KPY
+        if isinstance(v, ast.UnaryOp):
+            return self.const_kind(v.operand, depth + 1)
+        if isinstance(v, ast.BinOp):
+            return join(self.const_kind(v.left, depth + 1), self.const_kind(v.right, depth + 1))
+        return KUNK
 
     def e_Name(self, e, env, fn):
         if e.id in env:
             return env[e.id]
         if e.id in ("True", "False", "None"):
-            return PY
+            return KPY
         if e.id in self.consts:
-            v = self.consts[e.id]
-            if isinstance(v, ast.Constant) or (isinstance(v, ast.IfExp) and isinstance(v.body, ast.Constant) and isinstance(v.orelse, ast.Constant)):
-                return PY
-        return UNK
+            return self.const_kind(self.consts[e.id])
+        # a constant imported from a sibling module (from .util import created_by, ...)
+        cands = [st.value for tree in self.prog.mods.values() for st in tree.body
+                 if isinstance(st, ast.Assign) and len(st.targets) == 1 and isinstance(st.targets[0], ast.Name) and st.targets[0].id == e.id]
+        if len(cands) == 1:
+            return self.const_kind(cands[0])
+        return KUNK
 
     def e_Tuple(self, e, env, fn):
-        return join(PY, *[self.ev(x, env, fn) for x in e.elts])
+        return join(KPY, *[self.ev(x, env, fn) for x in e.elts])
 
     e_List = e_Tuple
     e_Set = e_Tuple
@@ -145,7 +217,7 @@ class Analyzer:
         for k in e.keys:
             if k is not None:
                 self.ev(k, env, fn)
-        return join(PY, *[self.ev(v, env, fn) for v in e.values])
+        return join(KPY, *[self.ev(v, env, fn) for v in e.values])
 
     def e_Starred(self, e, env, fn):
         return self.ev(e.value, env, fn)
@@ -159,25 +231,22 @@ class Analyzer:
 
     def e_UnaryOp(self, e, env, fn):
         k = self.ev(e.operand, env, fn)
-        return PY if isinstance(e.op, ast.Not) else k
+        return KPY if isinstance(e.op, ast.Not) else k
 
     def e_BinOp(self, e, env, fn):
         a, b = self.ev(e.left, env, fn), self.ev(e.right, env, fn)
-        if isinstance(e.op, ast.Mod) and isinstance(e.left, (ast.Constant, ast.JoinedStr)) and isinstance(getattr(e.left, "value", None), (str, bytes)):
-            return PY
+        if isinstance(e.op, ast.Mod) and isinstance(e.left, ast.Constant) and isinstance(e.left.value, (str, bytes)):
+            return KPY
         return join(a, b)
 
     def e_Compare(self, e, env, fn):
         ks = [self.ev(e.left, env, fn)] + [self.ev(c, env, fn) for c in e.comparators]
         if all(isinstance(o, (ast.Is, ast.IsNot, ast.In, ast.NotIn)) for o in e.ops):
-            return PY if not any(k == ARR for k in ks[:1]) or all(isinstance(o, (ast.Is, ast.IsNot)) for o in e.ops) else join(*ks)
+            return KPY                       # identity / membership tests return a Python bool
         return join(*ks)
 
     def e_Lambda(self, e, env, fn):
-        return UNK
-
-    def e_Await(self, e, env, fn):
-        return self.ev(e.value, env, fn)
+        return KUNK
 
     def e_NamedExpr(self, e, env, fn):
         k = self.ev(e.value, env, fn)
@@ -191,7 +260,7 @@ class Analyzer:
             self.bind(g.target, self.iter_kind(g.iter, ik), env2, g.iter, fn, from_iter=True)
             for c in g.ifs:
                 self.ev(c, env2, fn)
-        return join(PY, *[self.ev(x, env2, fn) for x in elts])
+        return join(KPY, *[self.ev(x, env2, fn) for x in elts])
 
     def e_ListComp(self, e, env, fn):
         return self._comp(e, env, fn, [e.elt])
@@ -203,23 +272,21 @@ class Analyzer:
         return self._comp(e, env, fn, [e.key, e.value])
 
     def e_Attribute(self, e, env, fn):
-        # parquet_thrift.<Enum>.<MEMBER>
         if isinstance(e.value, ast.Attribute) and isinstance(e.value.value, ast.Name) and e.value.value.id in THRIFT_MODULES:
-            return PY
+            return KPY                       # parquet_thrift.<Enum>.<MEMBER>
         if isinstance(e.value, ast.Name) and e.value.id in THRIFT_MODULES:
-            return PY
+            return KPY
         b = self.ev(e.value, env, fn)
         if e.attr in ARR_ATTRS:
-            return ARR
+            return retag(b, ARR)
         if e.attr in PY_ATTRS:
-            return PY
+            return KPY
         if e.attr in self.fields or e.attr in self.children:
-            # an attribute read from a thrift object (field name of `specs`): a Python object (what read_thrift / from_fields store) - unless
-            # the base is known to be an array / frame (df.columns, s.name are handled above / stay unknown)
-            return PY if b not in BAD else UNK
-        if e.attr in ("dtype", "dtypes", "index", "columns"):
-            return UNK
-        return UNK
+            # an attribute read from a thrift object (a field name of `specs`): what read_thrift / from_fields / a checked site stored
+            return KPY if b[0] not in BAD else KUNK
+        if b[0] in (PARAM, PY):
+            return b                         # plain access into caller-supplied data: covered by the function's `requires`
+        return KUNK if b[0] not in BAD else KUNK
 
     def e_Subscript(self, e, env, fn):
         b = self.ev(e.value, env, fn)
@@ -229,32 +296,25 @@ class Analyzer:
             for x in (e.slice.lower, e.slice.upper, e.slice.step):
                 if x is not None:
                     self.ev(x, env, fn)
-        if b == ARR:
-            return ARR if isinstance(e.slice, ast.Slice) else NP
-        if b == NP:
-            return NP
-        if isinstance(e.value, ast.Attribute) and e.value.attr == "shape":
-            return PY
-        if isinstance(e.value, (ast.Tuple, ast.List)) or (b == PY and isinstance(e.value, ast.Name) and env.get("#elts:" + e.value.id) == PY):
+        if b[0] == ARR:
+            return b if isinstance(e.slice, ast.Slice) else retag(b, NP)
+        if b[0] == NP:
             return b
-        return UNK
+        if b[0] in (PY, PARAM):
+            return b                         # element of a Python container built from py / caller-supplied values
+        return KUNK
 
     def iter_kind(self, it, k):
-        """kind of one element when iterating over expression `it` of kind k"""
-        if k == ARR or k == NP:
-            return NP
-        if isinstance(it, ast.Call) and isinstance(it.func, ast.Name) and it.func.id == "range":
-            return PY
-        if isinstance(it, (ast.Tuple, ast.List)):
-            return k
-        return UNK
+        if k[0] in BAD:
+            return retag(k, NP)
+        if isinstance(it, ast.Call) and isinstance(it.func, ast.Name) and it.func.id in ("range", "enumerate", "zip"):
+            return k if it.func.id != "range" else KPY
+        return k if k[0] in (PY, PARAM) else KUNK
 
     def e_Call(self, e, env, fn):
         f = e.func
         args = [self.ev(a, env, fn) for a in e.args]
         kws = {k.arg: self.ev(k.value, env, fn) for k in e.keywords}
-        full = ast.unparse(f)
-        # thrift constructors: a SITE
         struct = None
         if isinstance(f, ast.Attribute) and isinstance(f.value, ast.Name) and f.value.id in THRIFT_MODULES and f.attr[:1].isupper():
             struct = f.attr
@@ -263,86 +323,109 @@ class Analyzer:
                 (k.value.value for k in e.keywords if k.arg == "thrift_name" and isinstance(k.value, ast.Constant)), "?")
         if struct is not None:
             vals = [(k.arg, kws[k.arg], ast.unparse(k.value)) for k in e.keywords if k.arg and k.arg not in ("i32", "i32list", "thrift_name")]
-            self.sites.append((e.lineno, fn, struct, vals))
-            return PY
+            self.site(e.lineno, fn, struct, vals)
+            return KPY
+        callee = f.id if isinstance(f, ast.Name) else f.attr if isinstance(f, ast.Attribute) else None
+        if self.record and callee in self.prog.funcs:
+            self.prog.calls.append((self.rel, e.lineno, fn, callee, args, kws, isinstance(f, ast.Attribute)))
         if isinstance(f, ast.Name):
             n = f.id
             if n in PY_FUNCS:
-                return PY
-            if n in ("min", "max"):
-                if len(args) >= 2:
-                    return join(*args)
-                return NP if args and args[0] in BAD else (args[0] if args and isinstance(e.args[0], (ast.List, ast.Tuple, ast.ListComp, ast.GeneratorExp)) else UNK)
-            if n == "sum":
-                if args and args[0] in BAD:
-                    return NP
-                if args and isinstance(e.args[0], (ast.GeneratorExp, ast.ListComp, ast.List, ast.Tuple)):
-                    return join(*(args[:2]))
-                return UNK
-            if n in ("abs", "round", "divmod", "pow"):
-                return join(*args) if args else UNK
+                return KPY
+            if n in ("min", "max", "sum"):
+                ks = args + list(kws.values())
+                if any(k[0] in BAD for k in ks):
+                    return retag(join(*ks), NP)
+                return join(KPY, *ks)          # builtin reduction over Python values: one of them / their Python sum
+            if n in SAME_KIND_FUNCS or n in ("enumerate", "zip", "iter", "next", "dict", "OrderedDict"):
+                return join(KPY, *args, *kws.values())
             if n == "getattr" and e.args and ((isinstance(e.args[0], ast.Attribute) and isinstance(e.args[0].value, ast.Name) and e.args[0].value.id in THRIFT_MODULES)):
-                return PY
+                return KPY
+            if n == "getattr" and args and args[0][0] in (PY, PARAM):
+                return args[0]
             if n in ("from_buffer", "read_thrift", "ThriftObject"):
-                return PY
-            s = self.summaries.get(n)
-            if s and s[0] == "identity" and s[1] < len(args):
-                return args[s[1]]
-            return UNK
+                return KPY
+            return self.call_summary(n, args, kws, False)
         if isinstance(f, ast.Attribute):
             root = f.value
             if isinstance(root, ast.Name) and root.id in ("np", "numpy"):
-                return NP if f.attr in NP_SCALAR_CTORS else ARR
+                return KNP if f.attr in NP_SCALAR_CTORS else KARR
             if isinstance(root, ast.Name) and root.id in ("pd", "pandas"):
-                return ARR
+                return KARR
             if isinstance(root, ast.Name) and root.id in ("json", "struct", "ujson", "orjson") and f.attr in ("dumps", "pack"):
-                return PY
+                return KPY
+            if isinstance(root, ast.Name) and root.id == "copy" and f.attr in ("copy", "deepcopy"):
+                return join(KPY, *args)
             b = self.ev(root, env, fn)
             if f.attr in ("item", "tolist"):
-                return PY
+                return KPY
             if f.attr in NP_METHODS:
-                return PY if b == PY else NP
+                return KPY if b[0] == PY else retag(b, NP)
             if f.attr in PY_METHODS:
-                return PY
+                return KPY
             if f.attr in ARR_METHODS:
-                return ARR if b != PY else UNK
-            if f.attr == "copy":
+                return retag(b, ARR) if b[0] != PY else KUNK
+            if f.attr in ("copy", "get", "pop", "items", "keys", "values", "setdefault", "__getitem__") and b[0] in (PY, PARAM):
+                return join(b, *args[1:])
+            if f.attr in ("copy",):
                 return b
-            if f.attr == "get" and b == PY:
-                return UNK
-            return UNK
+            if b[0] in BAD:
+                return KUNK
+            return self.call_summary(f.attr, args, kws, True)
         self.ev(f, env, fn)
-        return UNK
+        return KUNK
+
+    def call_summary(self, name, args, kws, is_method):
+        s = self.prog.summary(name)
+        if s is None:
+            return KUNK
+        k, params, fdef = s
+        if is_method and params[:1] == ["self"]:
+            params = params[1:]
+        if k[0] != PARAM:
+            return (k[0], E)
+        got = []
+        defaults = dict(zip([a.arg for a in fdef.args.args][len(fdef.args.args) - len(fdef.args.defaults):], fdef.args.defaults))
+        for p_ in k[1]:
+            if p_ in params and params.index(p_) < len(args):
+                got.append(args[params.index(p_)])
+            elif p_ in kws:
+                got.append(kws[p_])
+            elif p_ in defaults:
+                got.append(self.const_kind(defaults[p_]))
+            elif p_ == "self":
+                got.append(K(PARAM, ["self"]))
+            else:
+                got.append(KUNK)
+        return join(KPY, *got)
 
     # ---- statements ----
     def bind(self, t, k, env, value, fn, from_iter=False):
         if isinstance(t, ast.Name):
             env[t.id] = k
-            if value is not None and isinstance(value, (ast.List, ast.Tuple, ast.ListComp)) and not from_iter:
-                env["#elts:" + t.id] = k
-            else:
-                env.pop("#elts:" + t.id, None)
         elif isinstance(t, (ast.Tuple, ast.List)):
             if isinstance(value, (ast.Tuple, ast.List)) and len(value.elts) == len(t.elts) and not from_iter:
                 for tt, vv in zip(t.elts, value.elts):
                     self.bind(tt, self.ev(vv, env, fn), env, vv, fn)
             elif from_iter and isinstance(value, ast.Call) and isinstance(value.func, ast.Name) and value.func.id == "enumerate" and len(t.elts) == 2:
-                self.bind(t.elts[0], PY, env, None, fn)
-                self.bind(t.elts[1], UNK if k not in BAD else NP, env, None, fn)
+                self.bind(t.elts[0], KPY, env, None, fn)
+                self.bind(t.elts[1], k, env, None, fn)
             else:
                 for tt in t.elts:
-                    self.bind(tt, k if k in BAD else UNK, env, None, fn)
+                    self.bind(tt, k, env, None, fn)
         elif isinstance(t, ast.Starred):
-            self.bind(t.value, UNK, env, None, fn)
+            self.bind(t.value, k, env, None, fn)
         elif isinstance(t, ast.Attribute):
-            self.ev(t.value, env, fn)
-            if (t.attr in self.fields or t.attr in self.children) and not (isinstance(t.value, ast.Name) and t.value.id == "self"):
-                self.sites.append((t.lineno, fn, "." + t.attr, [(t.attr, k, ast.unparse(value) if value is not None else "?")]))
+            b = self.ev(t.value, env, fn)
+            if (t.attr in self.fields or t.attr in self.children) and not (isinstance(t.value, ast.Name) and t.value.id == "self") and b[0] not in BAD:
+                self.site(t.lineno, fn, "." + t.attr, [(t.attr, k, ast.unparse(value) if value is not None else "?")])
         elif isinstance(t, ast.Subscript):
-            self.ev(t.value, env, fn)
+            b = self.ev(t.value, env, fn)
+            if not isinstance(t.slice, ast.Slice):
+                self.ev(t.slice, env, fn)
             if isinstance(t.slice, ast.Constant) and isinstance(t.slice.value, int) and not isinstance(t.slice.value, bool) and \
-                    self.ev(t.value, env, fn) not in BAD and self.rel.endswith(("writer.py", "api.py", "util.py", "schema.py")):
-                self.sites.append((t.lineno, fn, f"[{t.slice.value}]", [(f"[{t.slice.value}]", k, ast.unparse(value) if value is not None else "?")]))
+                    b[0] not in BAD and self.rel.endswith(("writer.py", "api.py", "util.py", "schema.py")):
+                self.site(t.lineno, fn, f"[{t.slice.value}]", [(f"[{t.slice.value}]", k, ast.unparse(value) if value is not None else "?")])
 
     def block(self, stmts, env, fn):
         for st in stmts:
@@ -353,11 +436,24 @@ class Analyzer:
     def merge(a, b):
         out = {}
         for n in set(a) | set(b):
-            if n in a and n in b:
-                out[n] = join(a[n], b[n])
-            else:
-                out[n] = join(a.get(n, UNK), b.get(n, UNK), UNK) if not n.startswith("#") else UNK
+            out[n] = join(a[n], b[n]) if (n in a and n in b) else (a.get(n) or b.get(n))
         return out
+
+    def loop(self, st, env, fn, head):
+        cur = dict(env)
+        for i in range(4):
+            e2 = dict(cur)
+            n0 = len(self.prog.sites), len(self.prog.calls), len(self.returns)
+            head(e2)
+            e2 = self.block(st.body, e2, fn)
+            nxt = self.merge(cur, e2)
+            if nxt == cur or i == 3:
+                break
+            del self.prog.sites[n0[0]:]      # re-run on the widened state: the last pass records
+            del self.prog.calls[n0[1]:]
+            del self.returns[n0[2]:]
+            cur = nxt
+        return self.block(st.orelse, cur, fn) if st.orelse else cur
 
     def stmt(self, st, env, fn):
         if isinstance(st, ast.Assign):
@@ -374,107 +470,80 @@ class Analyzer:
             k = join(self.ev(load, env, fn), self.ev(st.value, env, fn))
             self.bind(st.target, k, env, ast.BinOp(left=load, op=st.op, right=st.value), fn)
             return env
-        if isinstance(st, (ast.Expr, ast.Return)):
+        if isinstance(st, ast.Return):
             if st.value is not None:
-                self.ev(st.value, env, fn)
+                self.returns.append(self.ev(st.value, env, fn))
+            else:
+                self.returns.append(KPY)
+            return env
+        if isinstance(st, ast.Expr):
+            self.ev(st.value, env, fn)
             return env
         if isinstance(st, ast.If):
             self.ev(st.test, env, fn)
-            a = self.block(st.body, dict(env), fn)
-            b = self.block(st.orelse, dict(env), fn)
-            return self.merge(a, b)
+            return self.merge(self.block(st.body, dict(env), fn), self.block(st.orelse, dict(env), fn))
         if isinstance(st, (ast.For, ast.AsyncFor)):
             ik = self.ev(st.iter, env, fn)
-            cur = dict(env)
-            for _ in range(3):
-                e2 = dict(cur)
-                self.bind(st.target, self.iter_kind(st.iter, ik), e2, st.iter, fn, from_iter=True)
-                n0 = len(self.sites)
-                e2 = self.block(st.body, e2, fn)
-                nxt = self.merge(cur, e2)
-                if nxt == cur:
-                    break
-                del self.sites[n0:]         # re-run with the widened state: sites are recorded by the last pass
-                cur = nxt
-            else:
-                e2 = dict(cur)
-                self.bind(st.target, self.iter_kind(st.iter, ik), e2, st.iter, fn, from_iter=True)
-                self.block(st.body, e2, fn)
-            return self.block(st.orelse, cur, fn) if st.orelse else cur
+            return self.loop(st, env, fn, lambda e2: self.bind(st.target, self.iter_kind(st.iter, ik), e2, st.iter, fn, from_iter=True))
         if isinstance(st, ast.While):
-            cur = dict(env)
-            for _ in range(3):
-                self.ev(st.test, cur, fn)
-                n0 = len(self.sites)
-                e2 = self.block(st.body, dict(cur), fn)
-                nxt = self.merge(cur, e2)
-                if nxt == cur:
-                    break
-                del self.sites[n0:]
-                cur = nxt
-            return self.block(st.orelse, cur, fn) if st.orelse else cur
+            return self.loop(st, env, fn, lambda e2: self.ev(st.test, e2, fn))
         if isinstance(st, ast.Try):
             a = self.block(st.body, dict(env), fn)
             mid = self.merge(env, a)          # an exception may leave the body anywhere
-            outs = [self.block(st.orelse, dict(a), fn)]
+            res = self.block(st.orelse, dict(a), fn)
             for h in st.handlers:
                 e2 = dict(mid)
                 if h.name:
-                    e2[h.name] = UNK
-                outs.append(self.block(h.body, e2, fn))
-            res = outs[0]
-            for o in outs[1:]:
-                res = self.merge(res, o)
+                    e2[h.name] = KUNK
+                res = self.merge(res, self.block(h.body, e2, fn))
             return self.block(st.finalbody, res, fn) if st.finalbody else res
         if isinstance(st, (ast.With, ast.AsyncWith)):
             for it in st.items:
                 k = self.ev(it.context_expr, env, fn)
                 if it.optional_vars is not None:
-                    self.bind(it.optional_vars, UNK, env, None, fn)
+                    self.bind(it.optional_vars, k if k[0] in (PY, PARAM) else KUNK, env, None, fn)
             return self.block(st.body, env, fn)
         if isinstance(st, (ast.FunctionDef, ast.AsyncFunctionDef)):
+            saved = self.returns
+            self.returns = []
             self.function(st, fn + "." + st.name, dict(env))
-            env[st.name] = UNK
+            self.returns = saved
+            env[st.name] = KUNK
             return env
         if isinstance(st, ast.ClassDef):
             for s in st.body:
                 if isinstance(s, (ast.FunctionDef, ast.AsyncFunctionDef)):
+                    saved, self.returns = self.returns, []
                     self.function(s, st.name + "." + s.name, {})
+                    self.returns = saved
             return env
         if isinstance(st, ast.Delete):
             for t in st.targets:
                 if isinstance(t, ast.Name):
                     env.pop(t.id, None)
             return env
-        if isinstance(st, (ast.Raise, ast.Assert)):
-            for c in ast.iter_child_nodes(st):
-                if isinstance(c, ast.expr):
-                    self.ev(c, env, fn)
-            return env
-        if hasattr(ast, "Match") and isinstance(st, ast.Match):
-            self.ev(st.subject, env, fn)
-            res = dict(env)
-            for c in st.cases:
-                res = self.merge(res, self.block(c.body, {k: UNK for k in env}, fn))
-            return res
+        for c in ast.iter_child_nodes(st):
+            if isinstance(c, ast.expr):
+                self.ev(c, env, fn)
         return env
 
     def function(self, fdef, name, outer):
-        env = {k: v for k, v in outer.items()}
+        env = dict(outer)
         a = fdef.args
         for x in list(a.posonlyargs) + list(a.args) + list(a.kwonlyargs) + ([a.vararg] if a.vararg else []) + ([a.kwarg] if a.kwarg else []):
-            env[x.arg] = UNK
+            env[x.arg] = K(PARAM, [x.arg])
         for d in list(a.defaults) + [d for d in a.kw_defaults if d is not None]:
             self.ev(d, outer, name)
         self.block(fdef.body, env, name)
 
-    def run(self):
+    def module(self, tree):
         env = {}
-        for st in self.tree.body:
-            env = self.stmt(st, env, "<module>") if not isinstance(st, (ast.FunctionDef, ast.AsyncFunctionDef)) else env
+        for st in tree.body:
             if isinstance(st, (ast.FunctionDef, ast.AsyncFunctionDef)):
+                self.returns = []
                 self.function(st, st.name, {})
-        return self.sites
+            else:
+                env = self.stmt(st, env, "<module>")
 
 
 def precondition_from_pyx():
@@ -487,47 +556,150 @@ def precondition_from_pyx():
     return unchecked, tested, f
 
 
-def check(ctx, timeout=None):
-    res = KResults()
+NUMERIC = ("i8", "byte", "i16", "i32", "i64", "bool", "double")
+
+
+def field_class(idl, struct, fname):
+    """'numeric' | 'binary' | 'other' (struct / list) | None (not a field)"""
+    if struct not in idl.structs:
+        return None
+    f = idl.fields_by_name(struct).get(fname)
+    if f is None:
+        return None
+    k, x = idl.kind(f.type)
+    if k == "enum" or (k == "prim" and x in NUMERIC):
+        return "numeric"
+    if k == "prim":
+        return "binary"
+    return "other"
+
+
+def verdict(cls, kind):
+    """-> 'bad' | 'unknown' | 'ok' for a value of this kind given to a field of this class"""
+    t = kind[0]
+    if t == ARR:
+        return "bad"
+    if t == NP:
+        # a reduction (.max() / .min()) over a column of bytes / str objects returns an element of the column: only numbers come back as numpy scalars
+        return "ok" if cls == "binary" else "bad"
+    if t == UNK:
+        return "unknown"
+    return "ok"
+
+
+def analyse():
+    from spec import thrift_idl
     text = open(os.path.join(REPO, "fastparquet", "cencoding.pyx")).read()
     specs, children = parse_tables(text)
     fields = {f for s in specs.values() for f in s} - {f for c in children.values() for f in c}
     childs = {f for c in children.values() for f in c}
+    prog = Program(fields, childs)
+    for rel in FILES:
+        path = os.path.join(REPO, rel)
+        if os.path.exists(path):
+            prog.add(rel, ast.parse(open(path).read()))
+    prog.run()
+    return prog, specs, thrift_idl.load()
+
+
+def check(ctx, timeout=None):
+    res = KResults()
     try:
         unchecked, tested, f = precondition_from_pyx()
         if ctx is not None:
             ctx.function("cencoding.write_thrift (value dispatch)", sha(f.text), dict(f.report, isinstance_tests=tested))
         res.addk("write_thrift.precondition_is_exact_python_types", "safety", PROVED, None, 0.0, "ast",
-                 "write_thrift dispatches on True/False, " + ", ".join(tested) + (" and ends in the UNCHECKED cast <dict>val: any other value type is "
-                 "dereferenced as a dict - the call-site obligations thrift_value.is_exact_python_type[...] are its precondition" if unchecked else
-                 " and checks the dict case: the call-site obligations are stronger than needed"))
+                 "read off the .pyx: write_thrift dispatches on None, " + ", ".join(tested) + "; anything else is taken to be a dict: the call-site "
+                 "obligations thrift_value.is_exact_python_type[...] are this precondition, discharged where the .py files produce thrift values")
+        res.addk("write_thrift.else_branch_checks_type_before_dict_cast", "safety", REFUTED if unchecked else PROVED,
+                 {"value": "numpy.int64(3) (or numpy.bool_, a tuple, any object that is none of the tested types)",
+                  "branch": "else: write_thrift(<dict>val, output)"} if unchecked else None, 0.0, "ast",
+                 "a field value of any other type is refused with an exception before it is dereferenced (the final `else` casts with `<dict>val`, "
+                 "which Cython does not check: the callee then reads the object as a dict)")
     except Exception as ex:
         res.addk("write_thrift.precondition_is_exact_python_types", "safety", UNKNOWN, None, 0.0, "ast", f"{type(ex).__name__}: {ex}")
+    prog, specs, idl = analyse()
+    seen = {}
+    for rel, line, fn, struct, vals in prog.sites:
+        seen[(rel, line, fn, struct)] = vals
+    requires = {}                 # function simple name -> {param: [site]}
     n_sites = 0
-    for rel in FILES:
-        path = os.path.join(REPO, rel)
-        if not os.path.exists(path):
-            continue
-        src = open(path).read()
-        an = Analyzer(rel, ast.parse(src), fields, childs)
-        seen = {}
-        for line, fn, struct, vals in an.run():
-            key = (line, fn, struct)
-            seen[key] = vals                # a loop body is analysed until its state is stable: the last pass counts
-        for (line, fn, struct), vals in sorted(seen.items()):
-            n_sites += 1
-            name = f"thrift_value.is_exact_python_type[{rel}:{line}:{fn}:{struct}]"
-            bad = [(a, k, s) for a, k, s in vals if k in BAD]
-            unk = [(a, k, s) for a, k, s in vals if k == UNK]
+    for (rel, line, fn, struct), vals in sorted(seen.items()):
+        if struct.startswith((".", "[")):
+            # attribute / raw-id assignment: the receiver's struct is not known - only fields that are numeric in every struct declaring them
+            # (the numpy hazard), raw ids as they come
+            nm = struct[1:]
+            if struct.startswith("."):
+                classes = {field_class(idl, s_, nm) for s_ in specs if nm in specs[s_] and s_ in idl.structs}
+                if classes != {"numeric"}:
+                    continue
+            cls_of = lambda a: "numeric"
+        else:
+            cls_of = lambda a, struct=struct: field_class(idl, struct, a) or "numeric"
+        n_sites += 1
+        name = f"thrift_value.is_exact_python_type[{rel}:{line}:{fn}:{struct}]"
+        vs = [(a, k, s, verdict(cls_of(a), k)) for a, k, s in vals]
+        bad = [x for x in vs if x[3] == "bad"]
+        unk = [x for x in vs if x[3] == "unknown"]
+        req = sorted({p_ for a, k, s, v in vs if k[0] == PARAM for p_ in k[1]})
+        for p_ in req:
+            requires.setdefault(fn.split(".")[-1], {}).setdefault(p_, []).append(f"{rel}:{line}")
+        if bad:
+            res.addk(name, "safety", REFUTED, {"site": f"{rel}:{line}", "function": fn, "struct": struct,
+                                               "numpy_typed": {a: f"{s[:80]}  [{k[0]}]" for a, k, s, v in bad}}, 0.0, "kind-analysis",
+                     "a value that may be a numpy scalar / array reaches a thrift field: write_thrift casts it to dict without a type check (segfault)")
+        elif unk:
+            res.addk(name, "safety", UNKNOWN, None, 0.0, "kind-analysis", "undecided (not a violation): the kind of " +
+                     "; ".join(f"{a} = {s[:60]}" for a, k, s, v in unk) + " is not derivable")
+        else:
+            res.addk(name, "safety", PROVED, None, 0.0, "kind-analysis", "every value given is an exact Python object (" + ", ".join(a for a, _, _, _ in vs) + ")" +
+                     (f"; requires of {fn}: caller-supplied {', '.join(req)} hold(s) Python objects" if req else ""))
+    # ---- the functions' `requires` discharged at their internal callers (fixpoint over the call graph) ----
+    problems = {}
+    for _ in range(6):
+        changed = False
+        for rel, line, fn, callee, args, kws, is_method in prog.calls:
+            need = requires.get(callee)
+            defs = prog.funcs.get(callee, [])
+            if not need or len(defs) != 1:
+                continue
+            fdef = defs[0][2]
+            params = [a.arg for a in fdef.args.args]
+            if is_method and params[:1] == ["self"]:
+                params = params[1:]
+            for p_ in list(need):
+                if p_ in params and params.index(p_) < len(args):
+                    k = args[params.index(p_)]
+                elif p_ in kws:
+                    k = kws[p_]
+                else:
+                    continue                  # default value / self
+                if k[0] in BAD or k[0] == UNK:
+                    problems.setdefault((callee, p_), {})[f"{rel}:{line}:{fn}"] = k[0]
+                elif k[0] == PARAM:
+                    for q_ in k[1]:
+                        tgt = requires.setdefault(fn.split(".")[-1], {})
+                        if q_ not in tgt:
+                            tgt[q_] = [f"via {callee}({p_}) at {rel}:{line}"]
+                            changed = True
+        if not changed:
+            break
+    for callee in sorted(requires):
+        for p_ in sorted(requires[callee]):
+            if p_ == "self":
+                continue
+            pr = problems.get((callee, p_), {})
+            bad = {k: v for k, v in pr.items() if v in BAD}
+            name = f"thrift_value.callers_pass_python[{callee}({p_})]"
             if bad:
-                res.addk(name, "safety", REFUTED, {"site": f"{rel}:{line}", "function": fn, "struct": struct,
-                                                   "numpy_typed": {a: f"{s}  [{k}]" for a, k, s in bad}}, 0.0, "kind-analysis",
-                         "a value that may be a numpy scalar / array reaches a thrift field: write_thrift casts it to dict without a type check (segfault)")
-            elif unk:
-                res.addk(name, "safety", UNKNOWN, None, 0.0, "kind-analysis", "undecided (not a violation): the kind of " +
-                         "; ".join(f"{a} = {s[:60]}" for a, k, s in unk) + " is not derivable inside the function")
+                res.addk(name, "safety", REFUTED, {"callee": callee, "parameter": p_, "numpy_typed_at": bad}, 0.0, "kind-analysis",
+                         f"{callee} stores (a value derived from) its parameter {p_} in a thrift field: an internal caller passes a numpy scalar / array")
             else:
-                res.addk(name, "safety", PROVED, None, 0.0, "kind-analysis", "every value given is an exact Python object (" + ", ".join(a for a, _, _ in vals) + ")")
+                # an argument of undecidable kind at an internal caller is, like a public entry point's argument, caller-supplied data: it stays a
+                # stated `requires` (listed), not an undecided obligation of this check
+                res.addk(name, "safety", PROVED, None, 0.0, "kind-analysis",
+                         f"requires of {callee}: {p_} holds Python objects - no internal caller passes a value known to be numpy-typed"
+                         + (f" (kind not derivable at: {', '.join(sorted(pr))})" if pr else ""))
     if n_sites < 20:
         res.addk("thrift_value.sites_found", "safety", UNKNOWN, None, 0.0, "kind-analysis", f"only {n_sites} thrift value sites found (expected >= 30)")
     return res
